@@ -16,6 +16,7 @@
 //	                  the shrinker of the checks).
 //	-mode options     every options value of a finite grid x 8 queries on every sub-graph of a 6-triple universe; one
 //	                  digest per sub-graph.
+//	-mode burst       concurrent NewGraph / DeleteGraph of one name: exactly one caller succeeds.
 //	-mode overflow    replays finding C09-page-overflow (MaxElements = Offset = 2^32).
 //	-mode shared      concurrent callers sharing one LookupOptions value with LatestAnchor (defect F7).
 //
@@ -36,6 +37,7 @@ import (
 	"sort"
 	"strings"
 	"sync"
+	"sync/atomic"
 	"time"
 
 	"github.com/google/badwolf/bql/planner/filter"
@@ -771,6 +773,53 @@ func errCode(err error) uint64 {
 	return 9
 }
 
+// drain runs one storage call that publishes on a channel and consumes the channel CONCURRENTLY, so that a result of any
+// size is received (the lookups send while they hold the graph lock). A call that returns without closing its channel is
+// counted in notClosed; a call that never returns is reported by the watchdog.
+var notClosed int
+var callStarted atomic.Int64 // Unix seconds of the storage call in progress (0: none)
+
+func drain[T any](call func(chan<- T) error, each func(T)) error {
+	c := make(chan T, 16)
+	errc := make(chan error, 1)
+	callStarted.Store(time.Now().Unix())
+	defer callStarted.Store(0)
+	go func() { errc <- call(c) }()
+	for {
+		select {
+		case x, ok := <-c:
+			if !ok {
+				return <-errc
+			}
+			each(x)
+		case err := <-errc:
+			for {
+				select {
+				case x, ok := <-c:
+					if !ok {
+						return err
+					}
+					each(x)
+				default:
+					notClosed++
+					return err
+				}
+			}
+		}
+	}
+}
+
+// watchdog: a storage call that does not come back within two minutes ends the run with a verdict (exit status 4)
+func watchdog() {
+	for {
+		time.Sleep(2 * time.Second)
+		if t := callStarted.Load(); t != 0 && time.Now().Unix()-t > 120 {
+			emit(map[string]interface{}{"kind": "stuck", "what": "a Store/Graph call did not return within 120 s"})
+			os.Exit(4)
+		}
+	}
+}
+
 // runQuery performs one lookup on the real graph and returns the canonical encoding of its outcome.
 func (sc *scenario) runQuery(g storage.Graph, q query, lo *storage.LookupOptions) []uint64 {
 	ctx := context.Background()
@@ -779,53 +828,51 @@ func (sc *scenario) runQuery(g storage.Graph, q query, lo *storage.LookupOptions
 	var err error
 	switch q.K {
 	case 0:
-		c := make(chan *triple.Object, chanCap)
-		err = g.Objects(ctx, nodes[sc.nodeIx[q.A]], sc.preds[q.B].p, lo, c)
-		for o := range c {
+		err = drain(func(c chan<- *triple.Object) error {
+			return g.Objects(ctx, nodes[sc.nodeIx[q.A]], sc.preds[q.B].p, lo, c)
+		}, func(o *triple.Object) {
 			body = append(append(body, 2), sc.encObject(o)...)
 			cnt++
-		}
+		})
 	case 1:
-		c := make(chan *node.Node, chanCap)
-		err = g.Subjects(ctx, sc.preds[q.A].p, sc.objs[q.B].o, lo, c)
-		for n := range c {
+		err = drain(func(c chan<- *node.Node) error {
+			return g.Subjects(ctx, sc.preds[q.A].p, sc.objs[q.B].o, lo, c)
+		}, func(n *node.Node) {
 			body = append(body, 0, sc.encNode(n))
 			cnt++
-		}
+		})
 	case 2, 3, 4:
-		c := make(chan *predicate.Predicate, chanCap)
-		switch q.K {
-		case 2:
-			err = g.PredicatesForSubjectAndObject(ctx, nodes[sc.nodeIx[q.A]], sc.objs[q.B].o, lo, c)
-		case 3:
-			err = g.PredicatesForSubject(ctx, nodes[sc.nodeIx[q.A]], lo, c)
-		default:
-			err = g.PredicatesForObject(ctx, sc.objs[q.A].o, lo, c)
-		}
-		for p := range c {
+		err = drain(func(c chan<- *predicate.Predicate) error {
+			switch q.K {
+			case 2:
+				return g.PredicatesForSubjectAndObject(ctx, nodes[sc.nodeIx[q.A]], sc.objs[q.B].o, lo, c)
+			case 3:
+				return g.PredicatesForSubject(ctx, nodes[sc.nodeIx[q.A]], lo, c)
+			}
+			return g.PredicatesForObject(ctx, sc.objs[q.A].o, lo, c)
+		}, func(p *predicate.Predicate) {
 			body = append(append(body, 1), sc.encPredicate(p)...)
 			cnt++
-		}
+		})
 	default:
-		c := make(chan *triple.Triple, chanCap)
-		switch q.K {
-		case 5:
-			err = g.TriplesForSubject(ctx, nodes[sc.nodeIx[q.A]], lo, c)
-		case 6:
-			err = g.TriplesForPredicate(ctx, sc.preds[q.A].p, lo, c)
-		case 7:
-			err = g.TriplesForObject(ctx, sc.objs[q.A].o, lo, c)
-		case 8:
-			err = g.TriplesForSubjectAndPredicate(ctx, nodes[sc.nodeIx[q.A]], sc.preds[q.B].p, lo, c)
-		case 9:
-			err = g.TriplesForPredicateAndObject(ctx, sc.preds[q.A].p, sc.objs[q.B].o, lo, c)
-		default:
-			err = g.Triples(ctx, lo, c)
-		}
-		for t := range c {
+		err = drain(func(c chan<- *triple.Triple) error {
+			switch q.K {
+			case 5:
+				return g.TriplesForSubject(ctx, nodes[sc.nodeIx[q.A]], lo, c)
+			case 6:
+				return g.TriplesForPredicate(ctx, sc.preds[q.A].p, lo, c)
+			case 7:
+				return g.TriplesForObject(ctx, sc.objs[q.A].o, lo, c)
+			case 8:
+				return g.TriplesForSubjectAndPredicate(ctx, nodes[sc.nodeIx[q.A]], sc.preds[q.B].p, lo, c)
+			case 9:
+				return g.TriplesForPredicateAndObject(ctx, sc.preds[q.A].p, sc.objs[q.B].o, lo, c)
+			}
+			return g.Triples(ctx, lo, c)
+		}, func(t *triple.Triple) {
 			body = append(append(body, 3), sc.encTriple(t)...)
 			cnt++
-		}
+		})
 	}
 	if err != nil {
 		if cnt != 0 {
@@ -843,15 +890,15 @@ var lkStats [4]int
 var lkDistinct = map[[3]uint64]bool{}
 
 func contentKey(g storage.Graph) uint64 {
-	c := make(chan *triple.Triple, chanCap)
-	must(g.Triples(context.Background(), storage.DefaultLookup, c))
 	h := uint64(7)
-	for t := range c {
+	must(drain(func(c chan<- *triple.Triple) error {
+		return g.Triples(context.Background(), storage.DefaultLookup, c)
+	}, func(t *triple.Triple) {
 		h = dlist(h, []uint64{uint64(len(t.String()))})
 		for _, b := range []byte(t.String()) {
 			h = dmix(h, uint64(b))
 		}
-	}
+	}))
 	return h
 }
 
@@ -1024,16 +1071,15 @@ func (w *world) observe(res int) jobs {
 				mask.SetBit(mask, i, 1)
 			}
 		}
-		c := make(chan *triple.Triple, chanCap)
-		must(g.Triples(ctx, storage.DefaultLookup, c))
 		ranks := []int{}
-		for t := range c {
-			u, ok := w.sc.byStr[t.String()]
-			if !ok {
-				must(fmt.Errorf("listing returned a triple outside the universe: %s", t))
-			}
-			ranks = append(ranks, u.rank)
-		}
+		must(drain(func(c chan<- *triple.Triple) error { return g.Triples(ctx, storage.DefaultLookup, c) },
+			func(t *triple.Triple) {
+				u, ok := w.sc.byStr[t.String()]
+				if !ok {
+					must(fmt.Errorf("listing returned a triple outside the universe: %s", t))
+				}
+				ranks = append(ranks, u.rank)
+			}))
 		ob.Graphs = append(ob.Graphs, []interface{}{mask, ranks})
 	}
 	return ob
@@ -1581,6 +1627,87 @@ func runShared(workers, calls int) {
 		"options_restored": restored, "failures_per_method": perKind})
 }
 
+// ---------------------------------------------------------------- mode burst: concurrent creators / droppers of ONE name
+// Eight goroutines create the same new name at once: exactly one must succeed, Graph(name) must be the handle of the winner
+// (a triple added through it is visible through Graph(name)); then eight goroutines drop it: exactly one must succeed.
+func runBurst(rounds int) {
+	ctx := context.Background()
+	sc := exhaustiveScenario()
+	st := memory.NewStore()
+	const workers = 8
+	badCreate, badDelete, badHandle := 0, 0, 0
+	var first map[string]interface{}
+	note := func(kind string, round, winners int) {
+		if first == nil {
+			first = map[string]interface{}{"kind": kind, "round": round, "successful_calls": winners, "workers": workers}
+		}
+	}
+	for r := 0; r < rounds; r++ {
+		name := fmt.Sprintf("?g%d", r)
+		start := make(chan struct{})
+		hs := make([]storage.Graph, workers)
+		errs := make([]error, workers)
+		var wg sync.WaitGroup
+		for i := 0; i < workers; i++ {
+			wg.Add(1)
+			go func(i int) {
+				defer wg.Done()
+				<-start
+				hs[i], errs[i] = st.NewGraph(ctx, name)
+			}(i)
+		}
+		close(start)
+		wg.Wait()
+		var winner storage.Graph
+		n := 0
+		for i := range hs {
+			if errs[i] == nil {
+				n++
+				winner = hs[i]
+			}
+		}
+		if n != 1 {
+			badCreate++
+			note("NewGraph: not exactly one creator succeeded", r, n)
+		}
+		if winner != nil {
+			must(winner.AddTriples(ctx, []*triple.Triple{sc.univ[0].t}))
+			g, err := st.Graph(ctx, name)
+			ok := false
+			if err == nil {
+				ok, _ = g.Exist(ctx, sc.univ[0].t)
+			}
+			if err != nil || !ok {
+				badHandle++
+				note("Graph(name) is not the graph the successful NewGraph returned", r, n)
+			}
+		}
+		start = make(chan struct{})
+		for i := 0; i < workers; i++ {
+			wg.Add(1)
+			go func(i int) {
+				defer wg.Done()
+				<-start
+				errs[i] = st.DeleteGraph(ctx, name)
+			}(i)
+		}
+		close(start)
+		wg.Wait()
+		n = 0
+		for i := range errs {
+			if errs[i] == nil {
+				n++
+			}
+		}
+		if n != 1 {
+			badDelete++
+			note("DeleteGraph: not exactly one dropper succeeded", r, n)
+		}
+	}
+	emit(map[string]interface{}{"kind": "burst", "rounds": rounds, "bad_create": badCreate, "bad_delete": badDelete,
+		"bad_handle": badHandle, "first": first, "gomaxprocs": runtime.GOMAXPROCS(0)})
+}
+
 // ---------------------------------------------------------------- mode overflow (finding C09-page-overflow)
 func runOverflow() {
 	sc := exhaustiveScenario()
@@ -1847,6 +1974,7 @@ func main() {
 	neOnly := flag.Bool("ne", false, "-mode detail: only graph objects that hold triples (as the C09 digests)")
 	flag.Parse()
 	initVocabulary()
+	go watchdog()
 	switch *mode {
 	case "hist":
 		for i := *first; i < *first+*n; i++ {
@@ -1865,6 +1993,8 @@ func main() {
 		runOptions()
 	case "overflow":
 		runOverflow()
+	case "burst":
+		runBurst(*n)
 	default:
 		must(fmt.Errorf("unknown mode %q", *mode))
 	}
